@@ -5,9 +5,9 @@ HERE="$(cd "$(dirname "$0")" && pwd)"
 REPO="${1:-/repo}"
 ov=$(mktemp)
 cat > "$ov" <<JSON
-{"Replace": {"$REPO/motion/zz_probe_test.go": "$HERE/f3_f6_probe_test.go", "$REPO/motion/zz_probe2_test.go": "$HERE/f1_f2_probe_test.go"}}
+{"Replace": {"$REPO/motion/zz_probe_test.go": "$HERE/f3_f6_probe_test.go", "$REPO/motion/zz_probe2_test.go": "$HERE/f1_f2_probe_test.go", "$REPO/cmd/thermal-recorder/zz_probe3_test.go": "$HERE/f4_probe_test.go"}}
 JSON
-(cd "$REPO" && go test -overlay "$ov" -vet=off -count=1 -timeout 60s -run 'TestF[0-9]' ./motion)
+(cd "$REPO" && go test -overlay "$ov" -vet=off -count=1 -timeout 60s -run 'TestF[0-9]' ./motion ./cmd/thermal-recorder)
 rc=$?
 rm -f "$ov"
 exit $rc
